@@ -658,7 +658,25 @@ def _consistent(val):
                 else:
                     lo = b[1] if lo is None else max(lo, b[1])
                 bounds[a] = (lo, hi)
-    return all(lo is None or hi is None or lo <= hi for lo, hi in bounds.values())
+    # X == const: decided inside the interval, and at most one such equation holds
+    ne = {}
+    for c, v in val.items():
+        if c[0] == 'cmp' and c[1] == '==' and (T.is_int(c[2]) != T.is_int(c[3])):
+            k, x = (c[2], c[3]) if T.is_int(c[2]) else (c[3], c[2])
+            if type(k[1]) is not int:
+                continue
+            lo, hi = bounds.get(x, (None, None))
+            if v:
+                lo = k[1] if lo is None else max(lo, k[1])
+                hi = k[1] if hi is None else min(hi, k[1])
+                bounds[x] = (lo, hi)
+            else:
+                ne.setdefault(x, set()).add(k[1])
+    for x, (lo, hi) in bounds.items():
+        if lo is not None and hi is not None:
+            if lo > hi or (hi - lo < 64 and all(n in ne.get(x, ()) for n in range(lo, hi + 1))):
+                return False
+    return True
 
 
 def ite_equiv(a, b, max_atoms=8):
